@@ -208,17 +208,27 @@ IndexOfNth(b, k) == IndexOfNthN(NS, b, k)
 
 Objs == {"A", "B"}
 Live(o) == mk[o].live
-Post == [o \in Objs |-> IF mk[o].live THEN [live |-> TRUE, bits |-> mk[o].bits] ELSE [live |-> FALSE, bits |-> {}]]
-PostOf(m) == [o \in Objs |-> IF m[o].live THEN [live |-> TRUE, bits |-> m[o].bits] ELSE [live |-> FALSE, bits |-> {}]]
+PostOf(m) == [o \in Objs |-> IF m[o].live THEN [live |-> TRUE, bits |-> m[o].bits, pad |-> m[o].pad]
+                                             ELSE [live |-> FALSE, bits |-> {}, pad |-> FALSE]]
+Post == PostOf(mk)
 
-NoMask == [live |-> FALSE, bits |-> {}]
+(* pad = the object's byte mask may carry PADDING bits (positions >= NS in its last byte).  They are not *)
+(* signers: every count, participant list, aggregate key, aggregate signature and verdict is that of    *)
+(* `bits` alone, exactly as for the clean mask.  A bdn mask keeps the bytes it is given (SetMask) or ORs  *)
+(* them in (Merge); a cosi mask only ever copies the bits of real signers.                                *)
+NoMask == [live |-> FALSE, bits |-> {}, pad |-> FALSE]
+PadAfter(op, r, p) ==
+    IF Mode # "bdn" \/ r.ret # "ok" THEN (IF Mode = "bdn" THEN p ELSE FALSE)
+    ELSE IF op.o = "SetMask" THEN op.pad
+    ELSE IF op.o = "Merge" THEN (p \/ op.pad)
+    ELSE p
 
 New(kind, ns, ctor, i) ==
     /\ phase = "start" /\ kind \in Modes
     /\ md' = MD(kind, ns)
     /\ LET ok   == ctor # "unknown"
            b    == IF ctor = "own" THEN {i} ELSE {}
-           m    == [A |-> [live |-> ok, bits |-> b], B |-> NoMask]
+           m    == [A |-> [live |-> ok, bits |-> b, pad |-> FALSE], B |-> NoMask]
        IN /\ mk' = m
           /\ hist' = <<[act |-> "New", kind |-> kind, ns |-> ns, ctor |-> ctor, i |-> i, ret |-> IF ok THEN "ok" ELSE "error", post |-> PostOf(m)]>>
           /\ phase' = IF ok THEN "ops" ELSE "done"
@@ -228,7 +238,7 @@ New(kind, ns, ctor, i) ==
 Apply(o, op) ==
     /\ phase = "ops" /\ Live(o) /\ nops < OpsBound
     /\ LET r == MaskStep(op, mk[o].bits)
-           m == [mk EXCEPT ![o].bits = r.bits]
+           m == [mk EXCEPT ![o].bits = r.bits, ![o].pad = PadAfter(op, r, mk[o].pad)]
        IN /\ mk' = m
           /\ hist' = Append(hist, [act |-> op.o, obj |-> o, op |-> op, ret |-> r.ret, post |-> PostOf(m)])
     /\ nops' = nops + 1
@@ -237,16 +247,20 @@ Apply(o, op) ==
 
 Clone ==
     /\ Mode = "bdn" /\ phase = "ops" /\ Live("A") /\ ~Live("B") /\ nops < OpsBound
-    /\ LET m == [mk EXCEPT !["B"] = [live |-> TRUE, bits |-> mk["A"].bits]]
+    /\ LET m == [mk EXCEPT !["B"] = [live |-> TRUE, bits |-> mk["A"].bits, pad |-> mk["A"].pad]]
        IN /\ mk' = m
           /\ hist' = Append(hist, [act |-> "Clone", obj |-> "A", ret |-> "ok", post |-> PostOf(m)])
     /\ nops' = nops + 1
     /\ UNCHANGED <<cfg, list, phase, out, md>>       \* the clone has not been aggregated over itself: "B" is not in md.since
 
 SetBitOps  == [o : {"SetBit"}, i : 0..(IF Mode = "bdn" THEN NS + 1 ELSE NS), en : BOOLEAN]
-SetMaskOps == [o : {"SetMask"}, bs : CurMenu, lenok : {TRUE}] \cup {[o |-> "SetMask", bs |-> {}, lenok |-> FALSE]}
+(* pad = TRUE: the argument bytes carry padding bits besides bs (only when NS is not a multiple of 8) *)
+PadMenu    == IF NS % 8 = 0 THEN {} ELSE {Idx, {0}}
+SetMaskOps == [o : {"SetMask"}, bs : CurMenu, lenok : {TRUE}, pad : {FALSE}] \cup {[o |-> "SetMask", bs |-> {}, lenok |-> FALSE, pad |-> FALSE]}
+              \cup [o : {"SetMask"}, bs : PadMenu, lenok : {TRUE}, pad : {TRUE}]
 MergeOps   == IF Mode = "bdn"
-              THEN [o : {"Merge"}, bs : CurMenu, lenok : {TRUE}] \cup {[o |-> "Merge", bs |-> {}, lenok |-> FALSE]}
+              THEN [o : {"Merge"}, bs : CurMenu, lenok : {TRUE}, pad : {FALSE}] \cup {[o |-> "Merge", bs |-> {}, lenok |-> FALSE, pad |-> FALSE]}
+                   \cup [o : {"Merge"}, bs : PadMenu, lenok : {TRUE}, pad : {TRUE}]
               ELSE {}
 MaskOps == SetBitOps \cup SetMaskOps \cup MergeOps
 
